@@ -28,6 +28,7 @@ LEVEL_TEXT = ("Theorems (Lean 4, all 2^48 / 2^64 values, all strings): every ren
 LEVEL_NOTE = ("Trusted: Lean kernel; axioms propext/Classical.choice/Quot.sound only; the correspondence harness. macaddress 2.0.2 is "
               "modelled, not verified: its templates and its _parse/__str__ are re-implemented in Lean and agreement is measured "
               "(templates compared verbatim on every run). Proved about the model, measured against the code.")
+SERIAL = False
 EXHAUSTIVE = {"quick": False, "thorough": False}
 ASSUMPTIONS = [
     "constructor argument is a str without lone surrogates",
@@ -220,6 +221,18 @@ def cases(rng, tier):
                 yield mk_obj(kind, b, b, {"valid": False, "tag": "fixed", "rel": "malformed", "tpl": "-"})
         for b in FIXED_BAD:
             yield mk_classify(b, {"tag": "fixed"})
+    # twins: a 48-bit and a 64-bit object with the SAME integer value, built back to back in one worker process
+    # (both orders); an answer that depends on anything but the object itself — a cache keyed on the value,
+    # shared class state — shows up as a disagreement on the second of the pair
+    for i in range({"quick": 300, "thorough": 5000, "search": 100}[tier]):
+        v = rand_value(6, rng) if i % 3 else rng.choice([0, 1, 0x1DEADBEEF, (1 << 48) - 1, 0xFFFF])
+        pair = []
+        for kind in (["eui64", "mac"] if i % 2 else ["mac", "eui64"]):
+            nb = KINDS[kind]
+            tpl = rng.choice(TEMPLATES)
+            pair.append(mk_obj(kind, spell(nb, v, tpl, "lower", rng), spell(nb, v, rng.choice(TEMPLATES), "upper", rng),
+                               {"value": v, "tpl": tpl, "case": "lower", "valid": True, "rel": "same", "twin": True}))
+        yield from pair
     n = {"quick": 5000, "thorough": 400000, "search": 3000}[tier]
     for i in range(n):
         c = _one_obj(rng, 0.35)
